@@ -15,7 +15,7 @@ class Obs(types.SimpleNamespace):
 
 
 def run_case(plan_factory, requests=(), decision="resume", *, fail_call=None, fail_status=None, fail_attr=False, re_kwargs=None, max_decisions=3,
-             followup=True, subs=None, md_kw=None, setup=None, on_docs=None, updates=()):
+             followup=True, subs=None, md_kw=None, setup=None, on_docs=None, updates=(), settle_paused=False, prelude=None, mid_paused=None):
     """
     plan_factory(lab) -> (plan generator, devices dict)
     requests: iterable of dicts {step:int, kind:str, ...}; fired once when the pump step counter equals `step`
@@ -111,6 +111,13 @@ def run_case(plan_factory, requests=(), decision="resume", *, fail_call=None, fa
                                   deferred=RE.deferred_pause_requested, steps=lab.steps, nmsgs=len(lab.msgs), ndocs=len(lab.docs), t=lab.clock.t))
             ncall[0] += 1
 
+        if prelude is not None:
+            # an earlier, unrelated call on the same engine (its documents and messages are discarded)
+            lab.hook = None
+            lab.call(RE, prelude(lab))
+            del lab.docs[:], lab.msgs[:], lab.trans[:], lab.trans_meta[:], lab.ledger[:], lab.ledger_msg[:], msg_meta[:], doc_meta[:], msg_times[:], msg_deferred[:]
+            lab.ncalls = 0
+            lab.hook = hook
         lab.steps = 0
         kw = dict(md_kw or {})
         record("call", lab.call(RE, plan, subs, **kw) if subs is not None else lab.call(RE, plan, **kw))
@@ -130,6 +137,10 @@ def run_case(plan_factory, requests=(), decision="resume", *, fail_call=None, fa
                                          runs_open=len(RE._run_bundlers), t=lab.clock.t, phase="paused"))
             if str(RE.state) != "paused":
                 break
+            if settle_paused:
+                lab.settle()  # time passes while the engine sits paused: pending device statuses complete (or fail)
+            if mid_paused is not None:
+                obs.mid_paused = lab.call(mid_paused, lab)
             record(decision, lab.call(getattr(RE, decision)))
         obs.state = str(RE.state)
         obs.msgs, obs.msg_meta, obs.msg_times, obs.msg_deferred = list(lab.msgs), msg_meta, msg_times, msg_deferred
